@@ -143,7 +143,10 @@ func sigKeys(numParts int) []string {
 func (pr *PersistRestorer) Staged(_ context.Context, s channel.Source) error {
 	db := pr.channelDB(s.ID()).NewBatch()
 
-	if err := dbPutSource(db, s, "staging:state", "phase"); err != nil {
+	// A newly staged state has no signatures yet: also overwrite the signatures
+	// persisted for the previously staged state.
+	keys := append([]string{"staging:state", "phase"}, sigKeys(len(s.Params().Parts))...)
+	if err := dbPutSource(db, s, keys...); err != nil {
 		return err
 	}
 
